@@ -63,9 +63,9 @@ def plan(tier):
                                "e2n": 2000, "n2e": 800, "viz": 6000, "symmetry": 700, "zero_equal": 2800, "invariance": 1400,
                                "triangle": 700, "dispatch": 2800, "n2e_roundtrip": 800})
     return dict(n_cases=24000, shards=16, classes=CLASSES, timeout_s=3000,
-                min_evals={"angdist": 160000, "cone": 60000, "inplane": 100000, "cone_inplane": 48000, "compare": 60000,
-                           "e2n": 36000, "n2e": 24000, "viz": 28000, "symmetry": 14000, "zero_equal": 40000,
-                           "invariance": 28000, "triangle": 14000, "dispatch": 56000, "n2e_roundtrip": 8000})
+                min_evals={"angdist": 150000, "cone": 75000, "inplane": 100000, "cone_inplane": 60000, "compare": 50000,
+                           "e2n": 38000, "n2e": 13000, "viz": 120000, "symmetry": 12000, "zero_equal": 48000,
+                           "invariance": 24000, "triangle": 12000, "dispatch": 48000, "n2e_roundtrip": 13000})
 
 
 # ---- reading the inputs of an observed call ----------------------------------------------------------
